@@ -461,9 +461,12 @@ impl World {
         }
         let p = crate::PANICS.with(|p| p.get());
         if p > self.panics_seen {
+            // one event per panic, each with its own message
+            for i in self.panics_seen..p {
+                let msg = crate::PANIC_MSGS.with(|l| l.borrow().get(i as usize).cloned()).unwrap_or_else(|| crate::LAST_PANIC.with(|l| l.borrow().clone()));
+                self.shared.lock().unwrap().push(Ev::Panic { msg });
+            }
             self.panics_seen = p;
-            let msg = crate::LAST_PANIC.with(|l| l.borrow().clone());
-            self.shared.lock().unwrap().push(Ev::Panic { msg });
         }
         self.observe();
         if !self.scn.hold.is_empty() {
